@@ -6,12 +6,16 @@ import (
 	"errors"
 	"fmt"
 	"strings"
+	"sync/atomic"
 
 	"github.com/NethermindEth/juno/blockchain"
+	"github.com/NethermindEth/juno/clients/feeder"
 	"github.com/NethermindEth/juno/core"
 	"github.com/NethermindEth/juno/core/felt"
 	"github.com/NethermindEth/juno/core/pending"
+	junosync "github.com/NethermindEth/juno/sync"
 	"github.com/NethermindEth/juno/sync/preconfirmed"
+	"github.com/NethermindEth/juno/utils/log"
 	"verif/harness/lib"
 )
 
@@ -323,6 +327,27 @@ func (h *harness) liveCase(rng *lib.RNG, idx int) {
 		return
 	}
 	node := r.base
+	// The reader entry point under test is the REAL Synchronizer.PreConfirmedChain: a real
+	// Synchronizer over this node; the chain storage the stage writes to is the Synchronizer's own
+	// (private) one, and its cached highestBlockHeader is set by the stage — behind, equal to, ahead
+	// of the local head, or absent — as storeTask / revertHead / pollLatest leave it in the windows
+	// where it differs from the canonical head. (Run is never called: no goroutine, no data source.)
+	syn := junosync.New(node.bc, nil, log.NewNopZapLogger(), 0, false, nil)
+	var cachedHdr *atomic.Pointer[core.Header]
+	if f, err := unexportedField(syn, "preConfirmed"); err != nil {
+		h.res.Fatalf("live case %d: cannot reach the Synchronizer's chain storage: %v", idx, err)
+		return
+	} else if st, ok := f.Interface().(*preconfirmed.ChainStorage); !ok || st == nil {
+		h.res.Fatalf("live case %d: Synchronizer.preConfirmed is not a *ChainStorage", idx)
+		return
+	} else {
+		r.store = st
+	}
+	if f, err := unexportedField(syn, "highestBlockHeader"); err != nil {
+		h.res.Fatalf("live case %d: the Synchronizer has no highestBlockHeader field (%v): the cached header cannot be varied", idx, err)
+	} else if p, ok := f.Addr().Interface().(*atomic.Pointer[core.Header]); ok {
+		cachedHdr = p
+	}
 	canonStates := append([]*abs{}, states...)
 	run := &validRun{r: rng.Fork(5), blocks: map[uint64]*vblock{}, casm: true}
 	height := func() uint64 { return uint64(node.height - 1) }
@@ -440,6 +465,32 @@ func (h *harness) liveCase(rng *lib.RNG, idx int) {
 		default:
 			continue
 		}
+		// ---- the reader entry point: Synchronizer.PreConfirmedChain in the state (height, cached header, storage)
+		cachedTok := "-"
+		if cachedHdr != nil {
+			var hdr *core.Header
+			switch c := rng.Intn(6); {
+			case c == 0: // never set / reset
+			case c <= 2: // behind or equal (storeTask moved it, or a revert left it above... see below)
+				if k := int64(height()) - int64(rng.Intn(3)); k >= 0 {
+					hdr, _ = node.bc.BlockHeaderByNumber(uint64(k))
+				}
+			default: // ahead of the local head: not lowered by a revert, or pollLatest saw the feeder's newer block
+				if top, err := node.bc.HeadsHeader(); err == nil {
+					ahead := *top
+					ahead.Number = height() + uint64(1+rng.Intn(3))
+					hdr = &ahead
+				}
+			}
+			cachedHdr.Store(hdr)
+			if hdr != nil {
+				cachedTok = fmt.Sprint(hdr.Number)
+				r.hit(map[bool]string{true: "reader-cached-header-ahead-of-head", false: "reader-cached-header-at-or-behind-head"}[hdr.Number > height()])
+			} else {
+				r.hit("reader-cached-header-absent")
+			}
+		}
+		r.checkReaderEntry(opi-1, syn, height(), cachedTok)
 		// ---- oracles on the real objects, head not moving ----
 		v := r.store.SnapshotForBlock(height() + 1)
 		if v.Length() > 0 {
@@ -528,4 +579,63 @@ func oldestOf(s *preconfirmed.ChainStorage, aligned uint64) uint64 {
 		return ci.oldest
 	}
 	return aligned
+}
+
+// checkReaderEntry calls the real Synchronizer.PreConfirmedChain and checks what it hands out
+// against the canonical height AT THE MOMENT OF THE CALL (nothing moves during it: the stage is
+// sequential): never an error, never empty, gap-free, first block = height+1 (so the base,
+// oldest-1, is the canonical head); if the storage holds slot height+1 the view is that snapshot,
+// otherwise it is the empty fallback block. Compared with the model's `reader` answer.
+func (r *runner) checkReaderEntry(op int, syn *junosync.Synchronizer, height uint64, cachedTok string) {
+	var v preconfirmed.ChainReader
+	var err error
+	if e, panicked, stack := lib.Try(func() error { v, err = syn.PreConfirmedChain(); return nil }); panicked {
+		r.violate(op, "reader-entry-panics", fmt.Sprintf("Synchronizer.PreConfirmedChain panicked: %v\n%s", e, clip(stack)))
+		return
+	}
+	ci := inspect(r.store)
+	state := fmt.Sprintf("canonical height %d, cached highestBlockHeader %s, storage %s", height, cachedTok,
+		map[bool]string{true: "empty", false: fmt.Sprintf("[%d..%d]", ci.oldest, ci.tip)}[ci.empty])
+	if err != nil {
+		r.violate(op, "reader-entry-fails", fmt.Sprintf("Synchronizer.PreConfirmedChain() with %s: %v", state, err))
+		return
+	}
+	if v.Length() == 0 {
+		r.violate(op, "reader-entry-view-empty", fmt.Sprintf("Synchronizer.PreConfirmedChain() with %s returned an empty view", state))
+		return
+	}
+	if msg := validateViewShape(&v); msg != "" {
+		r.violate(op, "reader-entry-"+msg, fmt.Sprintf("Synchronizer.PreConfirmedChain() with %s: %s", state, msg))
+		return
+	}
+	var nums []uint64
+	for e := range v.OldestFirst() {
+		nums = append(nums, e.Block.Number)
+	}
+	if nums[0] != height+1 {
+		r.violate(op, "reader-entry-view-not-aligned-to-canonical-head",
+			fmt.Sprintf("Synchronizer.PreConfirmedChain() with %s handed out a view of blocks %d..%d: it must start at %d (its base state, block %d, is not the canonical head)",
+				state, nums[0], nums[len(nums)-1], height+1, nums[0]-1))
+	}
+	want := r.store.SnapshotForBlock(height + 1)
+	hd := v.Head()
+	isFallback := v.Length() == 1 && hd.BlockIdentifier == feeder.PreConfirmedBlankIdentifier && len(hd.Block.Transactions) == 0
+	impl := ""
+	switch {
+	case want.Length() > 0:
+		impl = canonView(&v)
+		if canonView(&want) != impl {
+			r.violate(op, "reader-entry-view-is-not-the-aligned-snapshot",
+				fmt.Sprintf("Synchronizer.PreConfirmedChain() with %s: the storage holds slot %d but the view handed out is %s", state, height+1, clip(impl)))
+		}
+		r.hit("reader-entry-snapshot")
+	case isFallback:
+		impl = fmt.Sprintf("fallback %d", hd.Block.Number)
+		r.hit("reader-entry-fallback")
+	default:
+		impl = canonView(&v)
+		r.violate(op, "reader-entry-view-instead-of-fallback",
+			fmt.Sprintf("Synchronizer.PreConfirmedChain() with %s: the storage does not hold slot %d, the view handed out is %s", state, height+1, clip(impl)))
+	}
+	r.ask(op, "exact", fmt.Sprintf("reader %d %s", height, cachedTok), impl)
 }
